@@ -176,9 +176,18 @@ impl Receiver {
             fdt.1.update_expired_state(now);
         });
 
+        let object_timeout = self.config.object_timeout;
+        let now_instant = Instant::now();
         self.fdt_receivers.retain(|_, fdt| {
             let state = fdt.state();
-            state == fdtreceiver::FDTState::Complete || state == fdtreceiver::FDTState::Receiving
+            if state == fdtreceiver::FDTState::Receiving {
+                // Release the FDT instances that are never completed
+                return match object_timeout.as_ref() {
+                    Some(timeout) => !fdt.is_timeout(now_instant, timeout),
+                    None => true,
+                };
+            }
+            state == fdtreceiver::FDTState::Complete
         });
     }
 
